@@ -11,7 +11,7 @@ import YaegiVerif.Generated.C08
 
    PROG = (STMT …)   STMT = (set d v) | (add d a b) | (addc d a c) | (jlt a b t) | (jmp t) | (send ch src)
                           | (recv d ok ch) | (range d ch exit) | (close ch) | (select CASE …) | (print s) | (halt)
-   CASE = (recv ch slot target) | (send ch slot target) | (dflt target)
+   CASE = (recv ch slot target) | (recv2 ch slot ok target) | (send ch slot target) | (dflt target)
    ACTS = ((SLOTS) (CHANS)) …       HEAP = ((cap closed v …) …)
    result = per activation `<d|b|r>:<v,v,…>` joined by `|`, then `~` and the channel buffers `v,v;v,…`
    `y` runs the model with Generated.C08.closureWrites, `g` with the empty table (Go: locals of one execution).
@@ -21,9 +21,10 @@ namespace YaegiVerif.Driver.C08
 open YaegiVerif YaegiVerif.Conc
 
 def parseCase : Sexp → Option Case
-  | .list [.atom "recv", c, s, t] => do some ⟨.recv, ← c.nat?, ← s.nat?, ← t.nat?⟩
-  | .list [.atom "send", c, s, t] => do some ⟨.send, ← c.nat?, ← s.nat?, ← t.nat?⟩
-  | .list [.atom "dflt", t] => do some ⟨.dflt, 0, 0, ← t.nat?⟩
+  | .list [.atom "recv", c, s, t] => do some ⟨.recv, ← c.nat?, ← s.nat?, ← t.nat?, none⟩
+  | .list [.atom "recv2", c, s, o, t] => do some ⟨.recv, ← c.nat?, ← s.nat?, ← t.nat?, some (← o.nat?)⟩
+  | .list [.atom "send", c, s, t] => do some ⟨.send, ← c.nat?, ← s.nat?, ← t.nat?, none⟩
+  | .list [.atom "dflt", t] => do some ⟨.dflt, 0, 0, ← t.nat?, none⟩
   | _ => none
 
 def parseStmt : Sexp → Option Stmt
